@@ -224,3 +224,32 @@ Proof.
   split; [exact (any_of_literal_lemma op s elems)|].
   split; [exact (all_of_literal_lemma op s elems) | exact (any_of_eq_seek_lemma s elems)].
 Qed.
+
+(* an in-list is its SET of denoted strings: the number of literals, the order in which they are written and repeated
+   literals do not matter *)
+From Storage Require Import Codec.StrOrderProofs.
+
+Lemma existsb_str_eqb_set (x : str) (vals vals' : list str) :
+  (forall v, In v vals <-> In v vals') -> existsb (str_eqb x) vals = existsb (str_eqb x) vals'.
+Proof.
+  intros H.
+  assert (E : forall l, existsb (str_eqb x) l = true <-> In x l).
+  { intro l. rewrite existsb_exists. split.
+    - intros [v [Hin Heq]]. apply str_eqb_eq in Heq. subst v. exact Hin.
+    - intros Hin. exists x. split; [exact Hin | apply str_eqb_refl]. }
+  destruct (existsb (str_eqb x) vals) eqn:A; destruct (existsb (str_eqb x) vals') eqn:B; try reflexivity.
+  - apply E in A. apply H in A. apply E in A. congruence.
+  - apply E in B. apply H in B. apply E in B. congruence.
+Qed.
+
+Lemma in_list_set_lemma (neg : bool) (tok : str) (vals vals' : list str) (x : str) :
+  spells_wordop wo_in neg tok ->
+  (forall v, In v vals <-> In v vals') ->
+  in_query tok (map literal_full vals) (Some x) = in_query tok (map literal_full vals') (Some x) /\
+  in_query tok (map literal_min vals) (Some x) = in_query tok (map literal_min vals') (Some x).
+Proof.
+  intros Hs H.
+  destruct (in_list_exact_lemma neg tok vals x Hs) as [A1 A2].
+  destruct (in_list_exact_lemma neg tok vals' x Hs) as [B1 B2].
+  rewrite A1, A2, B1, B2, (existsb_str_eqb_set x vals vals' H). split; reflexivity.
+Qed.
